@@ -217,6 +217,9 @@ func (propC18) Gen(r *Rng, run uint64, tier string) *Plan {
 		}
 	}
 	if cli {
+		if r.Bool(0.3) {
+			p.Tags["broken_pipe_first"] = "1"
+		}
 		p.Harness = "cli"
 		argv := []string{"query", "--color=false"}
 		argv = append(argv, fmt.Sprintf("--timestamp=%v", r.Bool(0.5)), fmt.Sprintf("--container=%v", r.Bool(0.5)))
@@ -302,6 +305,23 @@ func (propC18) Check(t *testing.T, p *Plan, st *Stats) *Violation {
 	}
 	var first *Outcome
 	var firstRender string
+	if p.Harness == "cli" && p.Tags["broken_pipe_first"] == "1" && len(p.Variants) > 0 {
+		// An earlier rendering in this process was cut short by a failing stdout:
+		// nothing of it may show in the renderings that follow.
+		pre := *p
+		v0 := p.Variants[0]
+		v0.StdoutFailAfter = 1 + int(p.Run%40)
+		pre.Variants = []Variant{v0}
+		o := Exec(t, &pre, 0, ExecOpts{})
+		checkHarnessLimit(o)
+		if st != nil {
+			st.NoteOutcome(o)
+			st.ProbeIf(o.Failed, "rendering_cut_short_by_stdout_error")
+		}
+		if o.Panic != "" {
+			return viol(0, "C18(panic)", "no panic", clip(o.Panic, 600))
+		}
+	}
 	for vi := range p.Variants {
 		o := Exec(t, p, vi, ExecOpts{})
 		checkHarnessLimit(o)
